@@ -141,3 +141,279 @@ Proof.
   destruct (fmt_true_head true a eq_refl) as (t & r & Et & Hne).
   destruct l as [|b l]; simpl; rewrite Et; eexists; eexists; (split; [reflexivity | exact Hne]).
 Qed.
+
+(* ---------------------------------------------------------------------------------------------- *)
+(* The exact text [fmtx]: its tokens are [fmt]'s, and tokens touch only next to brackets/semicolons *)
+(* ---------------------------------------------------------------------------------------------- *)
+Lemma tokens_of_app a b : tokens_of (a ++ b) = tokens_of a ++ tokens_of b.
+Proof. unfold tokens_of. apply flat_map_app. Qed.
+
+Lemma tokens_of_repeat_sp k : tokens_of (repeat sp k) = [].
+Proof. induction k; simpl; [reflexivity | exact IHk]. Qed.
+
+Lemma tokens_of_nl k : tokens_of (nl_indent k) = [].
+Proof. unfold nl_indent. simpl. apply tokens_of_repeat_sp. Qed.
+
+Lemma tokens_of_join_gap sep its :
+  tokens_of sep = [] -> tokens_of (join_pieces sep its) = flat_map tokens_of its.
+Proof.
+  intro Hs. induction its as [|x [|y r] IH].
+  - reflexivity.
+  - simpl. rewrite app_nil_r. reflexivity.
+  - change (join_pieces sep (x :: y :: r)) with (x ++ sep ++ join_pieces sep (y :: r)).
+    rewrite !tokens_of_app, Hs, IH. reflexivity.
+Qed.
+
+Lemma tokens_of_join_semi sep its :
+  tokens_of sep = [TSemi] -> tokens_of (join_pieces sep its) = join_semi (map tokens_of its).
+Proof.
+  intro Hs. induction its as [|x [|y r] IH].
+  - reflexivity.
+  - reflexivity.
+  - change (join_pieces sep (x :: y :: r)) with (x ++ sep ++ join_pieces sep (y :: r)).
+    rewrite !tokens_of_app, Hs, IH. reflexivity.
+Qed.
+
+Definition head_pieces (n : bytes) (annots : list bytes) : list piece :=
+  PT (TPrim n) :: flat_map (fun a => [sp; PT (TAnnot a)]) annots.
+
+Lemma tokens_of_head n annots : tokens_of (head_pieces n annots) = TPrim n :: map TAnnot annots.
+Proof.
+  unfold head_pieces. simpl. f_equal. induction annots as [|a l IH]; simpl; [reflexivity|].
+  rewrite IH. reflexivity.
+Qed.
+
+(* ---- the algebra of [pok] ---- *)
+Definition entry_ok (prev : option token) (seen : bool) : Prop :=
+  seen = true \/ prev = None \/ exists p, prev = Some p /\ is_punct p = true.
+(* fine after a filler, at the start, or after a bracket/semicolon *)
+Definition entry (X : list piece) : Prop := forall p s, entry_ok p s -> pok p s X = true.
+(* fine after anything *)
+Definition robust (X : list piece) : Prop := forall p s, pok p s X = true.
+
+Fixpoint pend (prev : option token) (seen : bool) (ps : list piece) : option token * bool :=
+  match ps with
+  | [] => (prev, seen)
+  | PG _ :: r => pend prev true r
+  | PT t :: r => pend (Some t) false r
+  end.
+
+Lemma pok_app p s A B :
+  pok p s (A ++ B) = pok p s A && pok (fst (pend p s A)) (snd (pend p s A)) B.
+Proof.
+  revert p s. induction A as [|[t|f] A IH]; intros p s; simpl.
+  - reflexivity.
+  - rewrite IH, andb_assoc. reflexivity.
+  - rewrite IH, andb_assoc. reflexivity.
+Qed.
+
+Lemma robust_entry X : robust X -> entry X.
+Proof. intros H p s _. apply H. Qed.
+Lemma robust_nil : robust [].
+Proof. intros p s. reflexivity. Qed.
+Lemma entry_nil : entry [].
+Proof. apply robust_entry, robust_nil. Qed.
+
+Lemma entry_app_robust X Y : entry X -> robust Y -> entry (X ++ Y).
+Proof. intros HX HY p s H. rewrite pok_app, (HX p s H), HY. reflexivity. Qed.
+
+Lemma robust_gap f Y : wf_filler f = true -> entry Y -> robust (PG f :: Y).
+Proof. intros Hf HY p s. simpl. rewrite Hf. apply HY. left. reflexivity. Qed.
+
+Lemma robust_punct t Y : is_punct t = true -> entry Y -> robust (PT t :: Y).
+Proof.
+  intros Ht HY p s. simpl. rewrite Ht.
+  replace (s || match p with None => true | Some p0 => is_punct p0 || true end) with true
+    by (destruct s, p as [p0|]; simpl; rewrite ?orb_true_r; reflexivity).
+  apply HY. right. right. exists t. split; [reflexivity | exact Ht].
+Qed.
+
+Lemma entry_tok t Y : robust Y -> entry (PT t :: Y).
+Proof.
+  intros HY p s H. simpl. rewrite HY, andb_true_r.
+  destruct H as [-> | [-> | (q & -> & Hq)]]; [reflexivity | apply orb_true_r |].
+  rewrite Hq. apply orb_true_r.
+Qed.
+
+Lemma entry_punct t Y : is_punct t = true -> entry Y -> entry (PT t :: Y).
+Proof. intros Ht HY. apply robust_entry, robust_punct; assumption. Qed.
+
+Definition sep_piece (pc : piece) : Prop :=
+  match pc with PG f => wf_filler f = true | PT t => is_punct t = true end.
+
+Lemma robust_sep sep Y : sep <> [] -> Forall sep_piece sep -> entry Y -> robust (sep ++ Y).
+Proof.
+  intros Hne Hs HY. induction sep as [|x [|y r] IH].
+  - contradiction.
+  - inversion Hs as [|? ? Hx _]; subst. destruct x as [t|f]; simpl in *.
+    + apply robust_punct; assumption.
+    + apply robust_gap; assumption.
+  - inversion Hs as [|? ? Hx Hr]; subst.
+    assert (Hrest : robust ((y :: r) ++ Y)) by (apply IH; [discriminate | exact Hr]).
+    destruct x as [t|f]; simpl in Hx; cbn [app].
+    + apply robust_punct; [exact Hx | apply robust_entry, Hrest].
+    + apply robust_gap; [exact Hx | apply robust_entry, Hrest].
+Qed.
+
+Lemma entry_join sep its :
+  sep <> [] -> Forall sep_piece sep -> Forall entry its -> entry (join_pieces sep its).
+Proof.
+  intros Hne Hs Hits. induction Hits as [|x l Hx Hl IH].
+  - apply entry_nil.
+  - destruct l as [|y r]; [exact Hx|].
+    change (join_pieces sep (x :: y :: r)) with (x ++ sep ++ join_pieces sep (y :: r)).
+    apply entry_app_robust; [exact Hx|]. apply robust_sep; [exact Hne | exact Hs | exact IH].
+Qed.
+
+Lemma sep_piece_repeat_sp k : Forall sep_piece (repeat sp k).
+Proof. induction k; simpl; constructor; [reflexivity | exact IHk]. Qed.
+
+Lemma sep_piece_nl k : Forall sep_piece (nl_indent k).
+Proof. unfold nl_indent. constructor; [reflexivity | apply sep_piece_repeat_sp]. Qed.
+
+Lemma head_then n annots Z : robust Z -> entry (head_pieces n annots ++ Z).
+Proof.
+  intro HZ. unfold head_pieces. cbn [app]. apply entry_tok.
+  induction annots as [|a l IH]; cbn [flat_map app]; [exact HZ|].
+  apply robust_gap; [reflexivity|]. apply entry_tok. exact IH.
+Qed.
+
+Lemma entry_head n annots : entry (head_pieces n annots).
+Proof. rewrite <- (app_nil_r (head_pieces n annots)). apply head_then, robust_nil. Qed.
+
+(* ---- the main invariant ---- *)
+Definition fmtx_spec (inline : bool) (p : pnode) : Prop :=
+  forall indent wrapped,
+    tokens_of (fmtx inline p indent wrapped) = fmt wrapped p /\ entry (fmtx inline p indent wrapped).
+
+Lemma multi_loop_spec inline always indent alt l :
+  Forall (fmtx_spec inline) l ->
+  forall expr ai, entry expr ->
+    let r := multi_loop (fun a k => fmtx inline a k false) always indent alt l expr ai in
+    tokens_of r = tokens_of expr ++ flat_map (fmt false) l /\ entry r.
+Proof.
+  induction 1 as [|a l Ha Hl IH]; intros expr ai He; cbn [multi_loop].
+  - cbn [flat_map]. rewrite app_nil_r. split; [reflexivity | exact He].
+  - destruct (Ha ai false) as [Ht Hen]. cbn zeta.
+    destruct (always || (indent + plen expr + plen (fmtx inline a ai false) + 1 <? line_size)).
+    + destruct (IH (expr ++ sp :: fmtx inline a ai false) alt) as [T E].
+      { apply entry_app_robust; [exact He|]. apply robust_gap; [reflexivity | exact Hen]. }
+      split; [|exact E]. cbn zeta in T. rewrite T.
+      change (sp :: fmtx inline a ai false) with ([sp] ++ fmtx inline a ai false).
+      rewrite !tokens_of_app, Ht. cbn [flat_map]. simpl. rewrite <- app_assoc. reflexivity.
+    + destruct (IH (expr ++ nl_indent ai ++ fmtx inline a ai false) ai) as [T E].
+      { apply entry_app_robust; [exact He|].
+        apply robust_sep; [discriminate | apply sep_piece_nl | exact Hen]. }
+      split; [|exact E]. cbn zeta in T. rewrite T.
+      rewrite !tokens_of_app, tokens_of_nl, Ht. cbn [flat_map]. simpl. rewrite <- app_assoc. reflexivity.
+Qed.
+
+Lemma map_tokens_fmtx inline items k w :
+  Forall (fmtx_spec inline) items ->
+  map tokens_of (map (fun x => fmtx inline x k w) items) = map (fmt w) items.
+Proof.
+  induction 1 as [|a l Ha Hl IH]; simpl; [reflexivity|]. rewrite (proj1 (Ha k w)), IH. reflexivity.
+Qed.
+
+Lemma flat_tokens_fmtx inline items k w :
+  Forall (fmtx_spec inline) items ->
+  flat_map tokens_of (map (fun x => fmtx inline x k w) items) = flat_map (fmt w) items.
+Proof.
+  induction 1 as [|a l Ha Hl IH]; simpl; [reflexivity|]. rewrite (proj1 (Ha k w)), IH. reflexivity.
+Qed.
+
+Lemma entry_map_fmtx inline items k w :
+  Forall (fmtx_spec inline) items -> Forall entry (map (fun x => fmtx inline x k w) items).
+Proof. induction 1 as [|a l Ha Hl IH]; simpl; constructor; [apply Ha | exact IH]. Qed.
+
+Lemma fmtx_ok inline : forall p, fmtx_spec inline p.
+Proof.
+  induction p as [r|r|r|n annots args IH|items IH] using pnode_ind'; intros indent wrapped.
+  - split; [reflexivity | apply entry_tok, robust_nil].
+  - split; [reflexivity | apply entry_tok, robust_nil].
+  - split; [reflexivity | apply entry_tok, robust_nil].
+  - (* primitive application *)
+    cbn [fmtx fmt]. fold (head_pieces n annots).
+    set (body := if is_complex n then _ else _).
+    assert (Hb : tokens_of body = TPrim n :: map TAnnot annots ++ flat_map (fmt false) args /\ entry body).
+    { subst body. destruct (is_complex n).
+      - cbn zeta.
+        destruct (inline || (indent + plen (head_pieces n annots) +
+                   sum_plen (map (fun x => fmtx inline x (indent + 2) false) args) +
+                   length (map (fun x => fmtx inline x (indent + 2) false) args) + 1 <? line_size)).
+        + split.
+          * change (sp :: join_pieces [sp] (map (fun x => fmtx inline x (indent + 2) false) args))
+              with ([sp] ++ join_pieces [sp] (map (fun x => fmtx inline x (indent + 2) false) args)).
+            rewrite !tokens_of_app, tokens_of_head, (tokens_of_join_gap [sp]) by reflexivity.
+            rewrite flat_tokens_fmtx by exact IH. reflexivity.
+          * apply head_then. apply robust_gap; [reflexivity|].
+            apply entry_join; [discriminate | repeat constructor | apply entry_map_fmtx, IH].
+        + split.
+          * rewrite tokens_of_join_gap by apply tokens_of_nl. cbn [flat_map].
+            rewrite tokens_of_head, flat_tokens_fmtx by exact IH. reflexivity.
+          * apply entry_join; [discriminate | apply sep_piece_nl |].
+            constructor; [apply entry_head | apply entry_map_fmtx, IH].
+      - destruct args as [|a [|b l]].
+        + split; [rewrite tokens_of_head; cbn [flat_map]; rewrite app_nil_r; reflexivity | apply entry_head].
+        + inversion IH as [|? ? Ha _]; subst.
+          destruct (Ha (indent + (plen (head_pieces n annots) + 1)) false) as [Ht He].
+          split.
+          * change (sp :: fmtx inline a (indent + (plen (head_pieces n annots) + 1)) false)
+              with ([sp] ++ fmtx inline a (indent + (plen (head_pieces n annots) + 1)) false).
+            rewrite !tokens_of_app, tokens_of_head, Ht. cbn [flat_map]. rewrite app_nil_r. reflexivity.
+          * apply head_then. apply robust_gap; [reflexivity | exact He].
+        + cbn zeta.
+          destruct (multi_loop_spec inline (inline || is_inline n) indent
+                      (indent + (plen (head_pieces n annots) + 2)) (a :: b :: l) IH
+                      (head_pieces n annots) (indent + 2) (entry_head n annots)) as [T E].
+          split; [|exact E]. cbn zeta in T. rewrite T, tokens_of_head. reflexivity. }
+    destruct Hb as [Tb Eb].
+    destruct (is_framed n (nonempty annots) && negb wrapped).
+    + split.
+      * change (PT TLParen :: body ++ [PT TRParen]) with ([PT TLParen] ++ body ++ [PT TRParen]).
+        rewrite !tokens_of_app, Tb. reflexivity.
+      * apply entry_punct; [reflexivity|]. apply entry_app_robust; [exact Eb|].
+        apply robust_punct; [reflexivity | apply entry_nil].
+    + split; [exact Tb | exact Eb].
+  - (* sequence *)
+    cbn [fmtx fmt]. destruct items as [|a l].
+    + split; [reflexivity|]. apply entry_punct; [reflexivity|]. apply entry_tok, robust_nil.
+    + set (its := map (fun x => fmtx inline x (indent + 2) true) (a :: l)).
+      assert (Hits : its = fmtx inline a (indent + 2) true :: map (fun x => fmtx inline x (indent + 2) true) l) by reflexivity.
+      rewrite Hits at 1. cbn iota. cbn zeta.
+      set (sep := if inline || (indent + sum_plen its + 4 <? line_size) then [sp; PT TSemi; sp]
+                  else sp :: PT TSemi :: nl_indent (indent + 2)).
+      assert (Hsep : tokens_of sep = [TSemi] /\ sep <> [] /\ Forall sep_piece sep).
+      { subst sep. destruct (inline || (indent + sum_plen its + 4 <? line_size)).
+        - repeat split; [discriminate | repeat constructor].
+        - repeat split; [simpl; rewrite tokens_of_repeat_sp; reflexivity | discriminate |].
+          constructor; [reflexivity|]. constructor; [reflexivity | apply sep_piece_nl]. }
+      destruct Hsep as (Hs1 & Hs2 & Hs3).
+      split.
+      * change (PT TLCurly :: sp :: join_pieces sep its ++ [sp; PT TRCurly])
+          with ([PT TLCurly; sp] ++ join_pieces sep its ++ [sp; PT TRCurly]).
+        rewrite !tokens_of_app, (tokens_of_join_semi sep its Hs1). subst its.
+        rewrite map_tokens_fmtx by exact IH. reflexivity.
+      * apply entry_punct; [reflexivity|]. apply robust_entry. apply robust_gap; [reflexivity|].
+        apply entry_app_robust.
+        -- apply entry_join; [exact Hs2 | exact Hs3 | subst its; apply entry_map_fmtx, IH].
+        -- apply robust_gap; [reflexivity|]. apply entry_tok, robust_nil.
+Qed.
+
+Lemma fmtx_root_ok inline p :
+  tokens_of (fmtx_root inline p) = fmt_root p /\ entry (fmtx_root inline p).
+Proof.
+  destruct p as [r|r|r|n annots args|items]; try apply (fmtx_ok inline).
+  unfold fmtx_root, fmt_root. destruct (is_script items && nonempty items); [|apply (fmtx_ok inline)].
+  cbn zeta.
+  set (its := map (fun x => fmtx inline x 0 true) items).
+  set (sep := if inline || (sum_plen its + 4 <? line_size) then [PT TSemi; sp] else PT TSemi :: nl_indent 0).
+  assert (Hsep : tokens_of sep = [TSemi] /\ sep <> [] /\ Forall sep_piece sep).
+  { subst sep. destruct (inline || (sum_plen its + 4 <? line_size));
+      (repeat split; [discriminate | repeat constructor]). }
+  destruct Hsep as (Hs1 & Hs2 & Hs3).
+  assert (Hall : Forall (fmtx_spec inline) items) by (apply Forall_forall; intros x _; apply fmtx_ok).
+  split.
+  - rewrite (tokens_of_join_semi sep its Hs1). subst its. rewrite map_tokens_fmtx by exact Hall. reflexivity.
+  - apply entry_join; [exact Hs2 | exact Hs3 | subst its; apply entry_map_fmtx, Hall].
+Qed.
